@@ -102,7 +102,7 @@ def check_propagate(ctx, R, modules=ANCHOR_MODULES_C03, note_modules=('streamz.r
                     if not ok:
                         # truthiness-guarded await: `if results: await gather(*results)`
                         ok = any(e.kind == 'COND' and e.b is False and tag in _cond_tags(st, e) for e in seg)
-                    if not ok and cname == 'Stream' and fn.name == 'emit':
+                    if not ok and cname == 'Stream' and fn.name in _emit_family(M):
                         # no loop => nothing can be awaited (EMIT-CONVERT checks the other branch)
                         ok = any(e.kind == 'COND' and e.b is False and e.a == 'self.loop' for e in seg)
                     if not ok and is_failure(seg, status) and not any(e.kind == 'HANDLED' for e in seg):
@@ -122,11 +122,96 @@ def check_propagate(ctx, R, modules=ANCHOR_MODULES_C03, note_modules=('streamz.r
             elif bad is not None:
                 R.note('PROPAGATE outside C03\'s anchors: %s drops the result of %s at %s'
                        % (con, src(site)[:50], ctx.where(fn, site.lineno)))
+    _propagate_through_helpers(ctx, R, modules)
     raw = raw_emit_site_count(M, set(modules) | set(note_modules))
     R.count('emit_sites', reached)
     if reached != raw:
         raise AnalysisError('emit sites reached through functions (%d) != raw AST count (%d): a function was missed'
                             % (reached, raw))
+
+
+def _same_site(a, b):
+    return a is b or (a is not None and b is not None and getattr(a, 'lineno', None) == getattr(b, 'lineno', -1)
+                      and getattr(a, 'col_offset', None) == getattr(b, 'col_offset', -1)
+                      and getattr(a, 'end_col_offset', None) == getattr(b, 'end_col_offset', -1))
+
+
+def _propagate_through_helpers(ctx, R, modules):
+    """an emission made inside a private helper (a method, or a module-level function that is handed the node) is still the
+    caller's to wait for: where the helper hands the awaitable back (`return gather(*node._emit(x))`) the caller must await /
+    return / accumulate that value; where the helper is itself a coroutine the caller must await the call"""
+    M = ctx.model
+    for fn in M.all_funcs():
+        if fn.module.name not in modules or fn.cls is None:
+            continue
+        cls = fn.cls
+        if cls in getattr(M, 'private_bases', ()):
+            continue
+        # candidate call sites: calls to package helpers whose body contains an emit call
+        cands = []
+        for n in own_nodes(fn.node):
+            if not isinstance(n, ast.Call):
+                continue
+            h = None
+            if isinstance(n.func, ast.Name):
+                h = M.resolve_name(fn.module, n.func)
+                if not (hasattr(h, 'params') and getattr(h, 'cls', None) is None):
+                    h = None
+            elif isinstance(n.func, ast.Attribute) and isinstance(n.func.value, ast.Name) and n.func.value.id == 'self':
+                h = cls.find(n.func.attr)
+                if h is not None and (h.cls is None or h.name in ('_emit', 'emit', 'update') or not h.module.name.startswith('streamz')):
+                    h = None
+            if h is not None and h is not fn and emit_sites(h):
+                cands.append((n, h))
+        if not cands:
+            continue
+        try:
+            paths = list(ctx.paths(fn, cls))
+        except AnalysisError:
+            continue
+        con = ctx.construct(fn)
+        kinds = ('SUS',) if fn.is_coro else ('SUS', 'RETURN')
+        for ordinal, (call, h) in enumerate(cands):
+            bad, npaths = None, 0
+            for st, status in paths:
+                evs = st.events
+                # (a module-level helper that is handed the node is analysed on a clone of the call: match by position)
+                starts = [i for i, e in enumerate(evs) if e.kind == 'ENTER' and e.depth == 0 and _same_site((e.x or {}).get('call'), call)]
+                for i in starts:
+                    j = next((k for k in range(i + 1, len(evs)) if evs[k].kind == 'LEAVE' and evs[k].depth == 0), None)
+                    if j is None:
+                        continue
+                    inner = {'emit@%d' % x.line for x in evs[i:j] if x.kind == 'EM'}
+                    if not inner or evs[j].c == 'raise':
+                        continue
+                    npaths += 1
+                    nxt = next((k for k in starts if k > i), len(evs))
+                    seg = evs[j + 1:nxt]
+                    if h.is_coro:
+                        ok = any(x.kind == 'SUS' and x.c == 'spliced' and _same_site((x.x or {}).get('node'), call) for x in seg[:3])
+                    else:
+                        handed = any(x.kind == 'RETURN' and x.depth == 1 and x.b and (inner & set(x.b)) for x in evs[i:j])
+                        if not handed:
+                            continue        # the helper keeps (awaits / drops) the result itself: its own obligation
+                        ok = any(x.kind in kinds and x.depth == 0 and x.b and (inner & set(x.b)) for x in seg)
+                        if not ok and not fn.is_coro:
+                            ok = any(x.kind == 'LADD' and x.b and (inner & set(x.b)) for x in seg) and (
+                                any(x.kind == 'RETURN' and x.depth == 0 for x in seg) or status == 'loopcut')
+                    if not ok and is_failure(seg, status) and not any(x.kind == 'HANDLED' for x in seg):
+                        ok = True
+                    if not ok and cls.name == 'Stream' and fn.name in _emit_family(M):
+                        ok = True       # (EMIT-CONVERT decides emit() and the pieces it is split into)
+                    if not ok and (cls.name, fn.name) in DROPPED_EMIT_OK:
+                        ok = True
+                    if not ok and bad is None:
+                        bad = evs
+            if npaths == 0 and h.is_coro and any(isinstance(x, ast.Expr) and x.value is call for x in own_nodes(fn.node)):
+                # a coroutine helper called as a bare statement: its future (and the emission it waits for) is dropped
+                npaths, bad = 1, []
+            if npaths:
+                R.ob('PROPAGATE', con, 'via:%s@%d' % (h.name, ordinal), bad is None,
+                     'the awaitable of the emission made inside %s() is dropped by its caller on some path (backpressure stops '
+                     'here)' % h.name if bad else '', ctx.where(fn, call.lineno), fmt_path(bad) if bad else None, npaths)
 
 
 def check_slot_returned(ctx, R, classes):
@@ -190,11 +275,24 @@ def check_flat_return(ctx, R, classes):
 
 
 # ----------------------------------------------------------------------------- C03 structural plumbing
-def _init_store(cls, pred):
-    """(field, value node) of the first `self.f = <call>` in __init__ matching pred(value)"""
-    fn = cls.methods.get('__init__')
-    if fn is None:
+def _init_store(cls, pred, model=None):
+    """(field, value node, constructor) of the first `self.f = <call>` matching pred(value) on the constructor's symbolic
+    normal form (a helper method that does the store, arguments handed to it and temporaries are transparent)"""
+    fn = cls.find('__init__')
+    if fn is None or fn.cls is None or not fn.module.name.startswith('streamz'):
         return None
+    if model is not None:
+        from ..symexpr import SymEval
+        try:
+            recs = [r for r in SymEval(model, cls).run(fn) if not r.raised]
+        except AnalysisError:
+            recs = []
+        for r in recs:
+            for f, v, _s, _l in r.stores:
+                if pred(v):
+                    if not hasattr(v, 'lineno'):
+                        v.lineno = fn.node.lineno
+                    return f, v, fn
     for n in own_nodes(fn.node):
         if isinstance(n, ast.Assign) and len(n.targets) == 1:
             f = self_field(n.targets[0])
@@ -214,7 +312,7 @@ def check_bound_plumb(ctx, R):
     M = ctx.model
     # ---- buffer(n): Queue(maxsize=n); update returns queue.put(...)
     cls = M.cls('streamz.core', 'buffer')
-    got = _init_store(cls, lambda v: _call_name(v) == 'Queue')
+    got = _init_store(cls, lambda v: _call_name(v) == 'Queue', M)
     con = 'streamz.core.buffer'
     if got is None:
         R.ob('BOUND-PLUMB', con, 'queue', False, 'no Queue(...) field is created in buffer.__init__',
@@ -229,7 +327,7 @@ def check_bound_plumb(ctx, R):
             cls.module.imports.get('Queue', ('', '', ''))[1:] == ('tornado.queues', 'Queue')
         R.ob('BOUND-PLUMB', con, 'maxsize', ok and fifo,
              'the bound parameter n does not reach Queue(maxsize=...) of a FIFO tornado Queue (found %s)' % src(call),
-             ctx.where(init, call.lineno))
+             ctx.where(init, getattr(call, 'lineno', init.node.lineno)))
         # on symbolic normal forms (helpers - also module-level ones that take the node - and temporaries transparent):
         # every normal path of update returns the put() awaitable of the bounded queue
         from ..symexpr import SymEval, nf as snf
@@ -248,7 +346,7 @@ def check_bound_plumb(ctx, R):
     # ---- map_async(parallelism): asyncio.Queue(maxsize=parallelism); wait for a slot before creating the job
     cls = M.cls('streamz.core', 'map_async')
     con = 'streamz.core.map_async'
-    got = _init_store(cls, lambda v: _call_name(v) == 'Queue')
+    got = _init_store(cls, lambda v: _call_name(v) == 'Queue', M)
     if got is None:
         R.ob('BOUND-PLUMB', con, 'work_queue', False, 'no Queue(...) field in map_async.__init__', cls.file)
     else:
@@ -257,7 +355,7 @@ def check_bound_plumb(ctx, R):
         allp = init.params() + [a.arg for a in init.node.args.kwonlyargs]
         ok = bool(mx) and isinstance(mx[0], ast.Name) and mx[0].id == 'parallelism' and mx[0].id in allp
         R.ob('BOUND-PLUMB', con, 'maxsize', ok and src(call.func) in ('asyncio.Queue',),
-             'parallelism does not reach asyncio.Queue(maxsize=...) (found %s)' % src(call), ctx.where(init, call.lineno))
+             'parallelism does not reach asyncio.Queue(maxsize=...) (found %s)' % src(call), ctx.where(init, getattr(call, 'lineno', init.node.lineno)))
         ij = cls.methods.get('_insert_job')
         if ij is None:
             raise AnalysisError('anchor vanished: map_async._insert_job')
@@ -343,7 +441,42 @@ def check_bound_plumb(ctx, R):
          ctx.where(up, up.node.lineno), fmt_path(bad) if bad else None, n)
 
 
+_EMIT_FAMILY = {}
+
+
+def _emit_family(M):
+    """Stream.emit and the private Stream methods that are called from nowhere but Stream.emit (or another member): the
+    pieces emit() was split into share its contract (no loop => nothing can be awaited)"""
+    key = id(M)
+    if key in _EMIT_FAMILY and _EMIT_FAMILY[key][0] is M:
+        return _EMIT_FAMILY[key][1]
+    fam = {'emit'}
+    cands = [n for n in M.stream.methods if n.startswith('_') and not n.startswith('__') and n not in ('_emit',)]
+    callers = {n: [] for n in cands}
+    for f in M.all_funcs():
+        if not f.module.name.startswith('streamz') or '.tests' in f.module.name:
+            continue
+        for x in ast.walk(f.node):
+            if isinstance(x, ast.Attribute) and x.attr in callers and f.node is not M.stream.methods[x.attr].node:
+                owner = f
+                while owner.parent is not None:
+                    owner = owner.parent
+                callers[x.attr].append(owner)
+    changed = True
+    while changed:
+        changed = False
+        for n in cands:
+            if n not in fam and callers[n] and all(o.cls is M.stream and o.name in fam for o in callers[n]):
+                fam.add(n)
+                changed = True
+    _EMIT_FAMILY.clear()
+    _EMIT_FAMILY[key] = (M, fam)
+    return fam
+
+
 def check_emit_convert(ctx, R):
+    """decided on the event paths of Stream.emit with the private pieces it may have been split into spliced in (the emission,
+    the conversion and the sync() hand-off may each live in a helper method)"""
     M = ctx.model
     fn = M.method('streamz.core', 'Stream', 'emit')
     con = ctx.construct(fn)
@@ -351,33 +484,45 @@ def check_emit_convert(ctx, R):
     bad, n = None, 0
     for st, status in paths:
         evs = st.events
-        ems = [e for e in evs if e.kind == 'EM' and e.depth == 0]
+        ems = [(i, e) for i, e in enumerate(evs) if e.kind == 'EM']
         if not ems or is_failure(evs, status):
             continue
         if any(e.kind == 'COND' and e.a == 'self.loop' and e.b is True for e in evs):
             n += 1
-            tag = 'emit@%d' % ems[0].line
-            rets = [e for e in evs if e.kind == 'RETURN' and e.depth == 0]
-            node = rets[-1].x.get('node') if rets else None
-            ok = rets and tag in (rets[-1].b or ()) and isinstance(node, ast.Call) and \
-                _call_name(node) in ('convert_yielded', 'gather', 'ensure_future', 'multi')
+            i0, em = ems[0]
+            tag = 'emit@%d' % em.line
+            ok = True
+            # at the level of the emission: `return <one awaitable built from the result>`; at every level above: the value
+            # of the helper call is what is returned
+            for d in range(em.depth, -1, -1):
+                rets = [e for e in evs[i0:] if e.kind == 'RETURN' and e.depth == d]
+                if not rets or tag not in (rets[-1].b or ()):
+                    ok = False
+                    break
+                node = rets[-1].x.get('node')
+                if d == em.depth and not (isinstance(node, ast.Call) and _call_name(node) in (
+                        'convert_yielded', 'gather', 'ensure_future', 'multi')):
+                    ok = False
+                    break
             if not ok:
                 bad = evs
     R.ob('EMIT-CONVERT', con, 'asynchronous-branch', bad is None and n > 0,
          'on the asynchronous branch with a loop, emit() does not return one awaitable built from the _emit result',
          ctx.where(fn, fn.node.lineno), fmt_path(bad) if bad else None, n)
     # blocking branch: a coroutine (nested function or method of the node) awaits gather(*_emit) and is handed to sync()
-    nested = {f.name: f for f in ctx.nested_funcs_of(fn) if f.is_coro}
+    fam = [M.stream.methods[nm] for nm in sorted(_emit_family(M)) if nm in M.stream.methods]
     targets = []
-    for n in own_nodes(fn.node):
-        if isinstance(n, ast.Call) and _call_name(n) == 'sync' and len(n.args) >= 2 and src(n.args[0]) == 'self.loop':
-            a1 = n.args[1]
-            if isinstance(a1, ast.Name) and a1.id in nested:
-                targets.append(nested[a1.id])
-            elif isinstance(a1, ast.Attribute) and isinstance(a1.value, ast.Name) and a1.value.id == 'self':
-                m_ = M.stream.find(a1.attr)
-                if m_ is not None and m_.is_coro:
-                    targets.append(m_)
+    for g in fam:
+        nested = {f.name: f for f in ctx.nested_funcs_of(g) if f.is_coro}
+        for n_ in own_nodes(g.node):
+            if isinstance(n_, ast.Call) and _call_name(n_) == 'sync' and len(n_.args) >= 2 and src(n_.args[0]) == 'self.loop':
+                a1 = n_.args[1]
+                if isinstance(a1, ast.Name) and a1.id in nested:
+                    targets.append(nested[a1.id])
+                elif isinstance(a1, ast.Attribute) and isinstance(a1.value, ast.Name) and a1.value.id == 'self':
+                    m_ = M.stream.find(a1.attr)
+                    if m_ is not None and m_.is_coro:
+                        targets.append(m_)
     handed = bool(targets)
     ok_nested = bool(targets)
     for nf in targets:
@@ -397,9 +542,10 @@ def check_emit_convert(ctx, R):
          'the blocking branch does not run a coroutine that awaits the _emit result through sync(self.loop, ...)',
          ctx.where(fn, fn.node.lineno))
     # try/finally around the asynchronous emission must not swallow
-    sw = [n for n in own_nodes(fn.node) if isinstance(n, ast.Try) and n.handlers]
+    sw = [(g, n) for g in fam for n in own_nodes(g.node) if isinstance(n, ast.Try) and any(
+        not (h.body and isinstance(h.body[-1], ast.Raise) and h.body[-1].exc is None) for h in n.handlers)]
     R.ob('EMIT-CONVERT', con, 'no-swallow', not sw, 'emit() has an except clause around _emit (would swallow failures)',
-         ctx.where(fn, sw[0].lineno) if sw else None)
+         ctx.where(sw[0][0], sw[0][1].lineno) if sw else None)
 
 
 def check_sync_transport(ctx, R):
